@@ -45,6 +45,19 @@ def handleProcessTable (j : Json) : R Json := do
       ("kinds", jList (fun (r : String × RowOutcome String) => match r.2 with
         | .ok _ => Json.str "ok" | .fault _ => Json.str "fault" | .escape => Json.str "escape") res)])
 
+/-- {"op":"row_faults","rows":[{"file_found","n_events","beads_table","gate_ok","channels":[{"units":str,"fxn","same_inst","has_mef","amp","volt"}..]}..]} -/
+def handleRowFaults (j : Json) : R Json := do
+  let ch (x : Json) : R (List Char × MefFacts) := do
+    pure ((← strF x "units").toList, ⟨← boolF x "fxn", ← boolF x "same_inst", ← boolF x "has_mef", ← boolF x "amp", ← boolF x "volt"⟩)
+  let row (x : Json) : R SampleRow := do
+    pure ⟨← boolF x "file_found", ← natF x "n_events", ← listF ch x "channels", ← boolF x "beads_table", ← boolF x "gate_ok"⟩
+  let rows ← listF row j "rows"
+  let tagged := (List.range rows.length).zip rows |>.map (fun (i, r) => (toString i, r))
+  match processTable sampleRowOutcome tagged with
+  | none => pure (Json.mkObj [("aborted", Json.bool true)])
+  | some res => pure (Json.mkObj [("faults", jList (fun (r : String × RowOutcome Unit) => match r.2 with
+        | .ok _ => Json.str "none" | .fault f => Json.str (faultName f) | .escape => Json.str "escape") res)])
+
 /-- {"op":"read_filter","ids":[str|null..]} -/
 def handleReadFilter (j : Json) : R Json := do
   let ids ← listF (fun v => match v with | .null => pure none | x => do pure (some (← asStr x))) j "ids"
